@@ -27,7 +27,7 @@ Viol(ln) ==
          IF ln.res = "ok" /\ ln.retry # Retryable(ln.rem, ln.user, ln.max) THEN {1} ELSE {} }
   \cup { <<"CONF", "GetCallbackData">> : x \in IF ln.res = "ok" /\ ln.exec = e /\ ln.commit = c THEN {} ELSE {1} }
 
-Report(ln, viol) == \A v \in viol : PrintT(<<"MONFAIL", ln.tr \o "-" \o ToString(ln.i), ln.i, v>>)
+Report(ln, viol) == \A v \in viol : PrintT(<<"MONFAIL", ln.tr, ln.i, v>>)
 
 TraceInit == l = 1 /\ Report(Trace[1], Viol(Trace[1]))
 TraceNext == /\ l < Len(Trace)
